@@ -1136,6 +1136,74 @@ def run_instance_categorical(ctx):
             ctx.count("steps:" + nxt)
 
 
+def run_instance_categorical_large(ctx):
+    """Scale class: 40-200 categories (strings sharing prefixes, or floats) against 300-2000 tested values in which member and
+    non-member values each repeat many times; bulk answers vs true membership and vs one-at-a-time answers."""
+    rng = ctx.rng
+    family = rng.choice(["large_strings", "large_floats"])
+    ncat = rng.randint(40, 200)
+    if family == "large_strings":
+        universe = ["k%d" % i for i in range(2 * ncat)]           # k1 / k10 / k100 share prefixes
+    else:
+        universe = [round(0.25 * i - 7.0, 2) for i in range(2 * ncat)]
+    rng.shuffle(universe)
+    cats, outsiders = universe[:ncat], universe[ncat:]
+    container = rng.choice(["list", "ndarray", "object_ndarray"])
+    roi = CategoricalROI(list(cats) if container == "list" else np.array(cats, dtype=object if container == "object_ndarray" else None))
+    member = set(cats)
+    ctx.count("instances:CategoricalROI")
+    ctx.count("variant:categorical:" + family)
+    for step in range(2):
+        n = rng.randint(300, 2000)
+        # few distinct values, each repeated many times: some members, some non-members (also values outside the universe)
+        few = rng.sample(cats, rng.randint(2, 12)) + rng.sample(outsiders, rng.randint(2, 12)) + \
+            (["k", "zz9", "k00"] if family == "large_strings" else [1e9, -0.125, 0.126])
+        values = np.array([rng.choice(few) for _ in range(n)])
+        pres = rng.choice(["flat", "2d", "strided", "jittered_component"])
+        if pres == "flat":
+            x = values
+        elif pres == "2d":
+            a = rng.choice([3, 7, 10])
+            x = values[:(n // a) * a].reshape(a, n // a)
+        elif pres == "strided":
+            x = values[::rng.choice([2, 3])]
+        else:
+            from glue.core.component import CategoricalComponent
+            x = CategoricalComponent(values, jitter="uniform")
+        sig = {"roi": "CategoricalROI", "variant": family, "presentation": pres, "op": "construct" if step == 0 else "restore",
+               "categories_container": container}
+        try:
+            res = np.asarray(roi.contains(x, None))
+            ref_in = values if pres == "jittered_component" else np.asarray(x)
+            idx = [rng.randrange(ref_in.size) for _ in range(12)]
+            single = [bool(np.asarray(roi.contains(ref_in.ravel()[i:i + 1], None))[0]) for i in idx]
+        except Exception as exc:
+            ctx.violation(dict(sig, kind="exception", exc=type(exc).__name__), {"ncat": ncat, "error": repr(exc)[:200]})
+            return
+        want = np.array([v.item() in member for v in ref_in.ravel()], dtype=bool).reshape(ref_in.shape)
+        ctx.count("comparisons:CategoricalROI")
+        ctx.count("comparisons_op:" + sig["op"])
+        ctx.count("categorical_large_comparisons")
+        ctx.count("categorical_large_values_compared", int(want.size))
+        ctx.count("points_compared", int(want.size))
+        ctx.count("points_compared_inside", int(want.sum()))
+        ctx.evaluation(["categorical_large", family, ncat // 20, container, pres, step], nontrivial=bool(want.any() and not want.all()))
+        if res.shape != want.shape or res.dtype.kind != "b" or not np.array_equal(res, want):
+            bad = np.argwhere(res != want)[:5] if res.shape == want.shape else []
+            ctx.violation(dict(sig, kind="contains_mismatch", answers="bulk"),
+                          {"ncat": ncat, "n": int(want.size), "first_bad_values": [str(ref_in[tuple(b)]) for b in bad],
+                           "expected": [bool(want[tuple(b)]) for b in bad], "n_bad": int((res != want).sum()) if res.shape == want.shape else -1})
+            return
+        if single != [bool(want.ravel()[i]) for i in idx]:
+            ctx.violation(dict(sig, kind="contains_mismatch", answers="one_at_a_time"), {"ncat": ncat})
+            return
+        try:
+            roi = GlueUnSerializer.loads(GlueSerializer(roi).dumps()).object("__main__")
+        except Exception as exc:
+            ctx.violation(dict(sig, kind="exception", exc=type(exc).__name__, op="restore"), {"ncat": ncat, "error": repr(exc)[:200]})
+            return
+
+
 # ---------------------------------------------------------------- projected 3-d
 MATRIX_KINDS = ["identity", "orthographic", "perspective", "affine_w_scaled", "affine_all_scaled", "perspective_one_term_w_scaled"]
 
@@ -1359,9 +1427,11 @@ def run_case(ctx, case):
             pass
         return
     _, kind, b = case
-    for _ in range(PER_BLOCK):
+    for i_ in range(PER_BLOCK):
         try:
-            if kind == "categorical":
+            if kind == "categorical" and i_ % 4 == 3:
+                run_instance_categorical_large(ctx)
+            elif kind == "categorical":
                 run_instance_categorical(ctx)
             elif kind == "proj3d":
                 run_instance_proj3d(ctx)
@@ -1401,6 +1471,8 @@ def floors(counters, tier):
     for fam in ("strings", "prefix_strings", "ints", "int_categories_float_values", "float_categories_int_values"):
         if g("variant:categorical:" + fam, 0) < 8:
             out.append("fewer than 8 CategoricalROI instances of family %s" % fam)
+    if g("categorical_large_comparisons", 0) < 30 or g("categorical_large_values_compared", 0) < 30000:
+        out.append("fewer than 30 comparisons / 30000 values for CategoricalROI with 40-200 categories")
     if g("categorical_jittered_inputs", 0) < 60:
         out.append("fewer than 60 CategoricalROI comparisons on jittered categorical arrays")
     if g("offset_class_instances", 0) < 22 or g("offset_class_round_trips_completed", 0) < 15:
